@@ -220,9 +220,13 @@ class Engine:
 
         def fn():
             # the documented argument is "a reordered list"; any iterable is accepted by the setters
-            v = {"list": lambda: L, "tuple": lambda: tuple(L), "iterator": lambda: iter(L),
+            v = {"list": lambda: list(L), "tuple": lambda: tuple(L), "iterator": lambda: iter(L),
                  "generator": lambda: (x for x in L), "reversed": lambda: reversed(L[::-1]), "view-copy": view_copy}[form]()
-            setattr(obj, attr, v)
+            try:
+                setattr(obj, attr, v)
+            finally:
+                if form == "list":
+                    del v[1:]          # the caller goes on using ITS list (a scratch list that is cleared and refilled)
         return Op(label, fn, "%s=(%s,%d,%s)" % (attr, st, len(L), form), st, obj, (L,))
 
     def op_set_libraries(self):
